@@ -592,3 +592,19 @@ func builtObjects(info *types.Info, body ast.Node, typeName string) []builtObj {
 	}
 	return out
 }
+
+// gotoStaysInside: a goto whose label is declared inside body does not leave body
+// (expanded helpers jump to labels behind their own statements).
+func gotoStaysInside(body ast.Node, b *ast.BranchStmt) bool {
+	if b.Tok != token.GOTO || b.Label == nil {
+		return false
+	}
+	inside := false
+	ast.Inspect(body, func(n ast.Node) bool {
+		if l, ok := n.(*ast.LabeledStmt); ok && l.Label.Name == b.Label.Name {
+			inside = true
+		}
+		return !inside
+	})
+	return inside
+}
